@@ -25,6 +25,12 @@ structure PEnv where
   dryrun : Bool
   syntaxOnly : Bool
   stdinMode : Bool
+  /-- GHOST (not part of `struct environment`): iterations granted to the model's `readdir` loops (`walk`,
+  `closeStdin`) on top of their standard allowance.  The C loops are unbounded (`while ((ent = readdir(..)))`); a
+  `Prog` is a well-founded tree, so the model's loops carry fuel.  Every theorem about `mainP` is quantified over the
+  environment and therefore holds for EVERY value of this field; a run that ends with `MainSt.fuelOut = false` is the
+  same for every larger value (`C04_fuel_irrelevant`). -/
+  extraFuel : Nat := 0
 deriving Repr
 
 /-- `struct maildir`. -/
